@@ -26,17 +26,19 @@ IMPURE = re.compile(r"time::|Instant|SystemTime|rand|thread::current|env::|getra
 
 def jit_rows():
     return [
-        Row("emit-bound", r"^jit::JitCompiler::emit", r"^panic!assert@$", "D3",
+        Row("emit-bound", r"^jit::(JitCompiler|JitMemory)::emit", r"^panic!assert@$", "D3",
             "the emit macro's bounds assert cannot fire in the writing pass: the buffer was sized by the counting pass, "
             "which runs the same generator on the same arguments (R12.b) and the generator is deterministic (R12.e)",
             cites=("R12.b", "R12.e")),
-        Row("emit-offset", r"^jit::JitCompiler::emit", r"^Overflow\(Add\)\(\*arg2<&mut jit::JitMemory<'_>>\.offset,mem::size_of\(\)\)$", "A",
+        Row("emit-offset", r"^jit::(JitCompiler|JitMemory)::emit", r"^Overflow\(Add\)\(\*arg[12]<&mut jit::JitMemory<'_>>\.offset,mem::size_of\(\)\)$", "A",
             "code size is below 2^32: at most 1,000,000 instructions (C06) of a bounded number of bytes each"),
         Row("rex-bits", r"^jit::JitCompiler::emit_(rex|modrm)$", r"^panic!assert_eq@$", "D1",
             "no arm, for any register pair, reaches the assert with other values: decided by evaluating every arm (R12.f)",
             cites=("R12.f",)),
         Row("pc-locs", r"^jit::JitCompiler::jit_compile$", r"^index:IndexMut<I>>::index_mut\(&\*arg1<&mut jit::JitCompiler>\.pc_locs,mut<usize>\)$", "D1",
             "pc_locs has n+1 entries (R12.m) and the loop guard keeps the index below n", cites=("R12.m",)),
+        Row("pc-locs-assert", r"^jit::JitCompiler::jit_compile$", r"^panic!debug_assert@\[insn_ptr < self\.pc_locs\.len\(\)\]$", "D1",
+            "the same fact as the indexing it precedes: pc_locs has n+1 entries (R12.m) and the loop guard keeps the index below n", cites=("R12.m",)),
         Row("map-register", r"^jit::JitCompiler::jit_compile$", r"^precond:jit::map_register<-", "D3",
             "register numbers of a verified program are <= 10, and the loop only decodes verified slots", cites=("C06/R06.b", "R12.k")),
         Row("tail-call", r"^jit::JitCompiler::jit_compile$", r"^panic!unimplemented@u8=141$", "D3",
@@ -101,6 +103,10 @@ def cl_rows():
         Row("cl-host", r"^cranelift::CraneliftCompiler::new::\{closure#0\}$", r"^panic!panic@$", "A", "unsupported host ISA: environment, not input"),
         Row("cl-params", r"^cranelift::", r"^BoundsCheck\(PtrMetadata\(FunctionBuilder::(block_params|inst_results)", "A",
             "the entry block has the 4 parameters appended by append_block_params_for_function_params; a call to a helper signature has 1 result"),
+        Row("cl-params-assert", r"build_function_prelude$", r"^panic!debug_assert_eq@\[.*\[T\]::len\(&\*FunctionBuilder::block_params\(.*<>.*\]$", "A",
+            "the same Cranelift API contract as cl-params, stated as an assertion: the entry block has the 4 parameters appended for the function signature"),
+        Row("access-type-assert", r"insert_bounds_check$", r"^panic!debug_assert@\[\[I8, I16, I32, I64\]\.contains\(&ty\)\]$", "D1",
+            "every access the translator emits has the width of its instruction, 1/2/4/8 bytes: decided per opcode by C11/R11.a", cites=("C11/R11.a",)),
         Row("regs", r"^cranelift::", r"^BoundsCheck\(11,\(.*\.(dst|src) as usize\)\)$", "D3", "register numbers <= 10", cites=("C06/R06.b",)),
         Row("tail-call", r"translate_program$", r"^panic!unimplemented@u8=141$", "D3", "TAIL_CALL is refused by the verifier", cites=("C06/R06.a",)),
         Row("unknown-opc", r"translate_program$", r"^panic!unimplemented@u8!in\[\d+ values\]$", "D3", "every accepted opcode has an arm", cites=("R12.g",)),
@@ -179,7 +185,9 @@ def run(rep, tier):
            found=found)
 
     # R12.c raw writes into the code buffer
-    rc = rep.rule("R12.c", "raw writes into the code buffer only behind the emit bounds assert or in jump fix-up", floor=5)
+    rc = rep.rule("R12.c", "raw writes into the code buffer only behind the emit bounds assert or in jump fix-up", floor=2)
+    import jitmodel as _jm
+    emitters = set(_jm.emit_functions(F))
     writers = {}
     for p in reach:
         fn = F.fns[p]
@@ -192,15 +200,24 @@ def run(rep, tier):
         fn = F.fns[p]
         has_assert = any(n.get("k") == "call" and (callee_path(n) or "").startswith("core::panicking") and "assert" in (n.get("mac") or [])
                          for n in walk(fn["thir"]["body"]))
-        via_macro = all("emit_bytes" in (n.get("mac") or []) for n in ns)
+        via_macro = all("emit_bytes" in (n.get("mac") or []) for n in ns) or p in emitters
         fixup = any(callee_path(n).endswith("copy_nonoverlapping") for n in ns)
         rep.ob(rc, "writer=%s" % p, (via_macro and has_assert) or (fixup and p.endswith("resolve_jumps")),
-               "raw buffer write in %s" % p, expected="emit macro with its assert, or the fix-up routine", found="macro=%s assert=%s fixup=%s" % (via_macro, has_assert, fixup))
+               "raw buffer write in %s" % p, expected="the emission primitive (macro or function) with its assert, or the fix-up routine", found="emitter=%s assert=%s fixup=%s" % (via_macro, has_assert, fixup))
 
     # R12.i the emit bounds predicate is exact
-    ri = rep.rule("R12.i", "emit: a write of n bytes at contents+offset happens exactly when offset + n <= contents.len() (not weaker: overrun; not stronger: spurious panic)", floor=4)
-    for p in sorted(writers):
-        if not all("emit_bytes" in (n.get("mac") or []) for n in writers[p]) or len(writers[p]) != 1:
+    ri = rep.rule("R12.i", "emit: a write of n bytes at contents+offset happens exactly when offset + n <= contents.len() (not weaker: overrun; not stronger: spurious panic)", floor=1)
+    # subjects: functions with one expansion of the emit macro, or - when the primitive is a generic function - its
+    # direct callers (there the written width is concrete)
+    subjects = [p for p in sorted(writers) if all("emit_bytes" in (n.get("mac") or []) for n in writers[p]) and len(writers[p]) == 1]
+    for e_ in sorted(emitters):
+        for q in sorted(reach):
+            fq = F.fns[q]
+            if fq.get("thir") and q not in emitters and sum(1 for n in walk(fq["thir"]["body"]) if n.get("k") == "call" and callee_path(n) == e_) == 1 \
+                    and len(fq["thir"]["params"]) <= 3:
+                subjects.append(q)
+    for p in subjects:
+        if False:
             continue  # several expansions of the same macro in one function: same predicate by construction
         fn = F.fns[p]
         ev = symex.Evaluator(F)
@@ -328,8 +345,15 @@ def run(rep, tier):
             for dd, ss in prs:
                 if d["kind"] == "call":
                     ss = ss % 2
-                for t in jm.templates(v, dd, ss):
-                    if t["err"] == "panic":
+                jm.lm.keep_assert_paths = True       # the asserts of emit_rex / emit_modrm are the point of this rule
+                try:
+                    tps = jm.templates(v, dd, ss)
+                finally:
+                    jm.lm.keep_assert_paths = False
+                for t in tps:
+                    # an assertion written in the generator's own loop (an invariant of the loop, not of an arm's operands)
+                    # is a site of the inventory R12.a, not of this rule
+                    if t["err"] == "panic" and t.get("panic_in") != jm.fn:
                         bad.append((dd, ss))
                         break
             rep.ob(rf_, "opc=%#04x" % v, not bad, "JIT arm of opcode %#04x over %d register pairs" % (v, len(prs)), expected="no panicking path", found=bad[:4] or "none")
